@@ -1025,11 +1025,13 @@ def _tostring(
         elem: ET.Element, level: int, short_empty_elements: bool = True
 ) -> str:
     _indent(elem, level)
+    # ET escapes carriage returns in attribute values only; a raw one
+    # left in (preserved) text would be read back as a line feed
     return ('  ' * level) + ET.tostring(
         elem,
         encoding='unicode',
         short_empty_elements=short_empty_elements
-    )
+    ).replace('\r', '&#13;')
 
 
 def _indent(elem: ET.Element, level: int) -> None:
